@@ -100,6 +100,9 @@ type E3Case struct {
 // exploreScenario is the worker body: all schedules within the bounds.
 func exploreScenario(name string, o verifrt.Options, c *sched.Collector) verifrt.Stats {
 	sc := findScenario(name)
+	// owned orders (map ranges, analysis' media type lists) are fixed to sorted for the solo runs as
+	// well: what a request observes alone must be comparable text for text
+	verifrt.SetOrderChooser(func(string, int) int { return 0 })
 	want := soloLogs(sc)
 	for i, l := range want {
 		if len(l) > 0 && strings.HasPrefix(l[0], "SOLO-FAILED") {
@@ -199,8 +202,8 @@ func compress(ch []int) string {
 // replaySchedule re-executes one recorded schedule and prints the logs.
 func replaySchedule(cs E3Case) (string, string) {
 	sc := findScenario(cs.Scenario)
-	want := soloLogs(sc)
 	verifrt.SetOrderChooser(func(string, int) int { return 0 })
+	want := soloLogs(sc)
 	w := newWorld(true)
 	s := newSite(w)
 	x := verifrt.Run(cs.Choices, 0, func() {
